@@ -24,6 +24,7 @@ import GceTcb.Drive.C14
 import GceTcb.Drive.C15
 import GceTcb.Drive.EndorseCli
 import GceTcb.Drive.RpCli
+import GceTcb.Drive.Argv
 import GceTcb.Drive.C16
 import GceTcb.Drive.C16Fs
 import GceTcb.Drive.C17
@@ -68,6 +69,7 @@ def dispatch (line : String) : String :=
     | "c15" => Drive.C15.handle f
     | "cli" => Drive.EndorseCli.handle f
     | "rpcli" => Drive.RpCli.handle f
+    | "argv" => Drive.Argv.handle f
     | "c16" => Drive.C16.handle f
     | "c16fs" => Drive.C16Fs.handle f
     | "c17" => Drive.C17.handle f
